@@ -7,6 +7,7 @@ mod gen;
 mod history;
 mod props;
 mod session;
+mod shapes;
 mod report;
 mod rng;
 mod simfs;
